@@ -32,7 +32,12 @@ MANIFEST = dict(
                 "unpack/int ValueError, the port asserts, the HOST loop): parse(render plan) returns exactly the plan "
                 "for every plan in the writer's domain with any number of entries (C13_plan_roundtrip), every HOST "
                 "update over the allowed alphabet of any length is reconstructed (C13_host_roundtrip), every "
-                "truncation either stops before set-up or sets up exactly the complete plan (C13_truncation). The model "
+                "truncation either stops before set-up or sets up exactly the complete plan (C13_truncation). The whole "
+                "dialogue is one theorem (C13_dialogue_roundtrip): for every plan in the writer's domain, every sequence of "
+                "host updates and every piece size of readline the helper holds exactly the plan, receives exactly the "
+                "updates and its host map is the last-writer map (C13_hostmap_last_writer); and for EVERY byte prefix of "
+                "that stream (C13_dialogue_prefix / C13_helper_prefix) it has either not started set-up or holds the "
+                "complete plan and exactly a prefix of the update history, never partial data. The model "
                 "is tied to the code on every run by a differential run of the real writer and the real helper plus an "
                 "oracle on the recorded setup_firewall arguments."),
     level_note=("Trusted: Lean kernel; axioms propext/Classical.choice/Quot.sound only; the correspondence harness; "
